@@ -201,7 +201,8 @@ def finalize(mod, tier, seed, results, wall, replay=None):
         k = known_sigs[sig]
         lines.append(f"KNOWN-FINDING: property={prop} {k['what']} "
                      f"[sig={sig}; seen {len(hits)}x this run]")
-    replay_dir = VERIF / 'replays' / prop
+    replay_dir = pathlib.Path(os.environ.get(
+        'VP_REPLAY_DIR', VERIF / 'replays')) / prop
     seen_sig = set()
     n_viol = len(violations)
     for r, v in violations:
@@ -265,8 +266,10 @@ def finalize(mod, tier, seed, results, wall, replay=None):
         except Exception as exc:  # evidence decoration must never decide
             ev['coverage']['extra_evidence_error'] = repr(exc)
     if replay is None:
-        (VERIF / 'evidence').mkdir(exist_ok=True)
-        (VERIF / 'evidence' / f'{prop}.json').write_text(
+        ev_dir = pathlib.Path(os.environ.get('VP_EVIDENCE_DIR',
+                                             VERIF / 'evidence'))
+        ev_dir.mkdir(exist_ok=True, parents=True)
+        (ev_dir / f'{prop}.json').write_text(
             json.dumps(ev, indent=1, default=str))
 
     print(f"[{prop}] tier={tier} seed={seed} cases={n_cases} "
